@@ -62,7 +62,10 @@ RULE = ("cases = byte strings at every position where the peer speaks: (1) pure 
         "valid frames of every NFC-DEP / LLCP PDU type and every T3T command, nested aggregates of every depth the "
         "maximum frame permits; (2) live positions - a scripted peer answers the real stack with the valid reply or a "
         "mutation of it / a chosen hostile PDU at one protocol position after a valid prefix, plus random walks of "
-        "hostile operations; a case is distinct by (position, input bytes / script) and non-trivial when the call "
+        "hostile operations; handover/SNEP clients of the stack against hostile servers incl. answers of every length "
+        "0..7 at every point where a client waits; a PDU-type x SAP-state grid of header-only PDUs; FeliCa commands whose "
+        "lists / block data are shorter than their counts; after hostile input the servers must still be there; "
+        "a case is distinct by (position, input bytes / script) and non-trivial when the call "
         "under observation was entered with the hostile input (its outcome - value, documented or undocumented "
         "exception, bound - is what the oracle classifies)")
 ASSUMPTIONS = [
@@ -1023,6 +1026,12 @@ class T3Emu(object):
         st.c["malformed_judged"] += 1
         st.c["malformed:" + reason] += 1
         name = "read" if cmd[1] == 0x06 else "write"
+        if reason in ("trailing-bytes", "block-data-longer-than-block-list"):
+            # octets BEHIND a complete command: the command formats do not say what a tag does with them, so an answer
+            # is only observed (counter), not judged
+            if isinstance(r, (bytes, bytearray)) and len(r) >= 12 and r[10] == 0 and r[11] == 0:
+                st.c["surplus_octets_answered_success_observed"] += 1
+            return
         case = {"pos": "tt3-emulation", "cmd": bytes(cmd)}
         if short:
             st.c["malformed_write_callback_not_16"] += 1
